@@ -48,10 +48,16 @@ def syncChunks (s : St) : St :=
   -- together with its tree; the chunk then takes the path of an unknown chunk
   let s :=
     if Generated.C02.syncChunksDropsStaleEntries then
-      { s with cidx := { s.cidx with chunks := s.cidx.chunks.filter (fun c =>
+      -- fix 7ea0278: only entries read from the snapshot file (`loaded`) can be stale; the others are kept and
+      -- every compared entry loses the flag
+      let only := Generated.C02.staleDropOnlyForSnapshotEntries
+      let kept := s.cidx.chunks.filter (fun c =>
           match s.cks.find? (fun k => k.id / 10 == c.id) with
-          | some k => !(k.cnt > c.recs)
-          | none => true) } }
+          | some k => !((!only || c.loaded) && k.cnt > c.recs)
+          | none => true)
+      let kept := kept.map (fun c =>
+          if only && (s.cks.find? (fun k => k.id / 10 == c.id)).isSome then { c with loaded := false } else c)
+      { s with cidx := { s.cidx with chunks := kept } }
     else s
   let unknown := (List.range s.cks.size).filter (fun i => (CIndex.findChk s.cidx ((s.cks[i]!).id / 10)).isNone)
   if unknown.isEmpty then s else
